@@ -145,8 +145,9 @@ impl Stats {
         if self.population == 0 {
             return Err(error::CIError::TooFewSamples(self.population));
         }
+        // NB: written so that NaN is rejected as well
         #[allow(clippy::manual_range_contains)]
-        if quantile < 0. || 1. < quantile {
+        if !(0. <= quantile && quantile <= 1.) {
             return Err(error::CIError::InvalidQuantile(quantile));
         }
         let index = (quantile * self.population as f64).floor() as usize;
